@@ -125,6 +125,7 @@ type vpWorld struct {
 	binds   []vpBindRec
 	calls   int
 	faultAt int // the calls-th API/provider call fails cleanly; 0 = none
+	crashAt int // the process dies right before the calls-th API/provider call; 0 = never
 	faulted bool
 
 	provider    *vpProvider
@@ -191,6 +192,11 @@ func (w *vpWorld) tick(kind, name string) error {
 	w.mu.Lock()
 	defer w.mu.Unlock()
 	w.calls++
+	if w.crashAt != 0 && w.crashAt == w.calls {
+		w.mu.Unlock()
+		w.mu.Lock() // (keeps the deferred Unlock balanced)
+		panic(vpCrashed{})
+	}
 	if w.faultAt == w.calls {
 		w.faulted = true
 		return fmt.Errorf("injected fault: %s %s", kind, name)
